@@ -13,6 +13,7 @@ import (
 
 	"github.com/dtn7/dtn7-go/pkg/bpv7"
 	"github.com/dtn7/dtn7-go/pkg/cla"
+	"github.com/dtn7/dtn7-go/pkg/verifhook"
 )
 
 type SprayConfig struct {
@@ -195,6 +196,7 @@ func (sw *SprayAndWait) ReportFailure(bp BundleDescriptor, sender cla.Convergenc
 		}).Warn("No metadata")
 		return
 	}
+	verifhook.At("routing.spray.reportfailure")
 
 	metadata.remainingCopies = metadata.remainingCopies + 1
 
@@ -404,6 +406,7 @@ func (bs *BinarySpray) ReportFailure(bp BundleDescriptor, sender cla.Convergence
 		}).Warn("No metadata")
 		return
 	}
+	verifhook.At("routing.binaryspray.reportfailure")
 	binarySprayBlock.SetCopies(metadata.remainingCopies + binarySprayBlock.RemainingCopies())
 
 	for i := 0; i < len(metadata.sent); i++ {
